@@ -1,6 +1,6 @@
 #!/usr/bin/env python3
-"""Sensitivity run: for every patch under sensitivity/mutants/ (hand-written) and seeded/*/patch.diff
-(independently written), apply it to a scratch worktree of /repo HEAD, confirm it is a *valid*
+"""Sensitivity run: for every patch under sensitivity/mutants/ (hand-written), sensitivity/agent_mutants/
+(small mutants written by independent sub-agents) and seeded/*/patch.diff (independently written), apply it to a scratch worktree of /repo HEAD, confirm it is a *valid*
 mutant (workspace compiles, every baseline test except the always-failing ui_tests passes), run the
 quick checks of the properties it should disturb against it (VERIF_REPO) and record killed /
 survived. Writes sensitivity/REPORT.md. Nothing is changed in /repo.
@@ -51,6 +51,12 @@ def main():
     for line in open(idx):
         name, props, _file = line.rstrip("\n").split("\t")
         items.append(("mutants/" + name, os.path.join(ROOT, "sensitivity", "mutants", name + ".patch"), props.split(","), "hand-written"))
+    # small mutants written by independent sub-agents (round 6): same layout, their own index
+    aidx = os.path.join(ROOT, "sensitivity", "agent_mutants", "INDEX.tsv")
+    if os.path.exists(aidx):
+        for line in open(aidx):
+            name, props, _summary = line.rstrip("\n").split("\t", 2)
+            items.append(("agent_mutants/" + name, os.path.join(ROOT, "sensitivity", "agent_mutants", name + ".patch"), props.split(","), "independent sub-agent (small mutant)"))
     for d in sorted(os.listdir(os.path.join(ROOT, "seeded"))):
         p = os.path.join(ROOT, "seeded", d, "patch.diff")
         if os.path.exists(p):
@@ -110,8 +116,8 @@ def main():
         idx_names = set()
         for line in open(os.path.join(ROOT, "sensitivity", "mutants", "INDEX.tsv")):
             idx_names.add("mutants/" + line.split("\t")[0])
-        previous = [r for r in previous if r["name"] in idx_names or r["name"].startswith("seeded/")]
-    write_report(sorted(previous + results, key=lambda r: (r["name"].startswith("seeded/"), r["name"])))
+        previous = [r for r in previous if r["name"] in idx_names or r["name"].startswith("seeded/") or r["name"].startswith("agent_mutants/")]
+    write_report(sorted(previous + results, key=lambda r: (r["name"].split("/")[0] != "mutants", r["name"].startswith("seeded/"), r["name"])))
     return 0
 
 
